@@ -3,6 +3,8 @@
   (`#print axioms` ⊆ {propext, Classical.choice, Quot.sound}) on every run.
 -/
 import OttoVerif.C10.Lemmas
+import OttoVerif.C10.ProtoLemmas
+import OttoVerif.C10.MatchLemmas
 import OttoVerif.C10.Match
 import OttoVerif.C10.Model
 import OttoVerif.C10.Spec
@@ -69,8 +71,6 @@ example : transform (fun _ => false) [40, 97, 41, 92, 49, 48] = .ok [40, 97, 41,
 
 /-! ## 2. denotation of the atoms in the two dialects -/
 
-def dE (i mm : Bool) : Dialect := { es5 := true, icase := i, multiline := mm }
-def dG (i mm : Bool) : Dialect := { es5 := false, icase := i, multiline := mm }
 
 /-- `.`: the dialects agree exactly off `\r`, U+2028, U+2029 (Dev `dot_lineterm`) -/
 theorem dot_denotation (i mm : Bool) (c : Nat) :
@@ -93,5 +93,78 @@ theorem space_denotation (i mm : Bool) (c : Nat) :
   rw [Bool.eq_iff_iff]
   simp only [decide_eq_true_eq]
   omega
+
+
+/-! ## 3. the matcher: ES5 semantics = Go semantics on the translated tree -/
+
+/-- **match_preserved.**  On the sub-subset `simpleLoops` (every quantified body consumes a character
+    and contains no capturing group – where §15.10.2.5's capture reset and empty-iteration check
+    cannot be observed), if every atom of `r` has the same denotation in both dialects on the
+    subject (`Lem.agree`), the ES5 matcher and the Go matcher return the same list of results (end
+    positions and captures, in priority order) from every state.  Structural induction on `r`. -/
+theorem match_preserved (i mm : Bool) (s : List Nat) (r : Re) (hs : r.simpleLoops = true) (ha : agree i mm s r)
+    (gi : Nat) (x : MS) : m (dE i mm) s r gi x = m (dG i mm) s r gi x :=
+  Lem.match_preserved i mm s r hs ha gi x
+
+/-- the atoms of EVERY pattern agree when the i flag is off and the subject has no `\r`, U+2028/9
+    and no ES5-only white space (so Dev regions dot_lineterm, space_class, multiline_lineterm and
+    icase_fold are the only atom-level deviations) -/
+theorem agree_plain (mm : Bool) (s : List Nat) (hs : ∀ c ∈ s, plainChar c) (r : Re) : agree false mm s r :=
+  Lem.agree_plain mm s hs r
+
+/-- corollary: same best match at every start position -/
+theorem matchAt_preserved (mm : Bool) (s : List Nat) (hs : ∀ c ∈ s, plainChar c) (r : Re) (hl : r.simpleLoops = true) (i : Nat) :
+    matchAt (dE false mm) r s i = matchAt (dG false mm) r s i := by
+  unfold matchAt
+  rw [Lem.match_preserved false mm s r hl (Lem.agree_plain mm s hs r)]
+
+/-- non-vacuity: `(a|b)c+?\d{2,}$` is in the sub-subset, "abcc12" is a plain subject -/
+example : (Re.seq (.group (.alt (.ch (.lit 97)) (.ch (.lit 98)))) (.seq (.quant (.ch (.lit 99)) .plus true)
+    (.seq (.quant (.cls .d) (.repFrom [50]) false) .eol))).simpleLoops = true := by decide
+example : ∀ c ∈ [97, 98, 99, 99, 49, 50], plainChar c := by
+  intro c hc; simp at hc; unfold plainChar; omega
+
+/-- Dev `capture_reset`: /(?:(a)|b)*/ on "ab" – ES5 clears group 1 in the second iteration, Go keeps it -/
+example : matchAt (dE false false) (.quant (.ncgroup (.alt (.group (.ch (.lit 97))) (.ch (.lit 98)))) .star false) [97, 98] 0
+    ≠ matchAt (dG false false) (.quant (.ncgroup (.alt (.group (.ch (.lit 97))) (.ch (.lit 98)))) .star false) [97, 98] 0 := by decide
+/-- Dev `nullable_loop`: /(a*)?/ on "b" – ES5 rejects the empty iteration (group 1 undefined), Go accepts it -/
+example : matchAt (dE false false) (.quant (.group (.quant (.ch (.lit 97)) .star false)) .opt false) [98] 0
+    ≠ matchAt (dG false false) (.quant (.group (.quant (.ch (.lit 97)) .star false)) .opt false) [98] 0 := by decide
+/-- Dev `dot_lineterm`: /a.b/ on "a\rb" -/
+example : matchAt (dE false false) (.seq (.ch (.lit 97)) (.seq .dot (.ch (.lit 98)))) [97, 13, 98] 0
+    ≠ matchAt (dG false false) (.seq (.ch (.lit 97)) (.seq .dot (.ch (.lit 98)))) [97, 13, 98] 0 := by decide
+/-- Dev `space_class`: /\s/ on U+00A0 -/
+example : matchAt (dE false false) (.cls .s) [0xA0] 0 ≠ matchAt (dG false false) (.cls .s) [0xA0] 0 := by decide
+/-- Dev `multiline_lineterm`: /^b/m on "a\rb" at 2 -/
+example : matchAt (dE false true) (.seq .bol (.ch (.lit 98))) [97, 13, 98] 2 ≠ matchAt (dG false true) (.seq .bol (.ch (.lit 98))) [97, 13, 98] 2 := by decide
+/-- Dev `icase_fold`: /k/i on KELVIN SIGN -/
+example : matchAt (dE true false) (.ch (.lit 107)) [0x212A] 0 ≠ matchAt (dG true false) (.ch (.lit 107)) [0x212A] 0 := by decide
+
+/-! ## 4. the exec / lastIndex protocol -/
+
+/-- **exec_protocol.**  On a linked subject (`Lem.Link`: ASCII, shorter than 2^63, and the engine run
+    on the suffix `t[i:]` = the ES5 search from `i`), RegExp.prototype.exec returns the §15.10.6.2
+    result (null, or the array with index / captures / undefined for unmatched groups) and leaves the
+    §15.10.6.2 lastIndex, for EVERY value of lastIndex (negative, fractional, NaN, ±Infinity, beyond the
+    length) and both values of `global`. -/
+theorem exec_protocol (E : Model.Eng) (S : Spec.SEng) (t : List Nat) (L : Link E S t) (rx : RX) :
+    Model.builtinRegExpExec E rx t = Spec.exec S rx t := Lem.exec_eq E S t L rx
+
+theorem test_protocol (E : Model.Eng) (S : Spec.SEng) (t : List Nat) (L : Link E S t) (rx : RX) :
+    Model.builtinRegExpTest E rx t = Spec.test S rx t := Lem.test_eq E S t L rx
+
+/-- **exec_history.**  All call sequences of exec / test / lastIndex writes on one RegExp object agree
+    step by step (results and observed lastIndex); induction over the calls. -/
+theorem exec_history (E : Model.Eng) (S : Spec.SEng) (t : List Nat) (L : Link E S t) (repU : List Nat → List Nat)
+    (steps : List Step) (rx : RX) (h : steps.all execStep = true) :
+    Model.run E t rx steps = Spec.run S t repU rx steps := Lem.history_eq E S t L repU steps rx h
+
+/-- **search.**  String.prototype.search = §15.5.4.12 on a linked subject. -/
+theorem search_protocol (E : Model.Eng) (S : Spec.SEng) (t : List Nat) (L : Link E S t) (rx : RX) :
+    Model.builtinStringSearch E rx t = Spec.stringSearch S rx t := Lem.search_eq E S t L rx
+
+/-- String.prototype.match with a non-global regexp = exec (§15.5.4.10 step 7). -/
+theorem match_nonglobal (E : Model.Eng) (S : Spec.SEng) (t : List Nat) (L : Link E S t) (rx : RX) (hg : rx.global = false) :
+    Model.builtinStringMatch E rx t = Spec.stringMatch S rx t := Lem.match_nonglobal_eq E S t L rx hg
 
 end OttoVerif.C10.Thm
